@@ -2,6 +2,7 @@ SPECIFICATION TrSpec
 CONSTANTS
     Ids <- MCIds
     Modes <- MCModesAll
+    Times = {0}
     MaxPoints = 1000000
     MaxCrashes = 1000000
     MaxTaskRestarts = 1000000
